@@ -19,7 +19,7 @@ CONSTANTS MaxItems,     \* bound on the number of body items
 VARIABLE doc
 
 KnobsAll == {"alt", "pre", "post", "blank", "trsp", "op", "cind", "ind", "envOmit", "endOmit", "final"}
-FeatAll == {"block", "target", "section", "annot", "comment", "trail", "zonechild", "dupkey", "cind", "filterkeys", "hoist"}
+FeatAll == {"block", "target", "section", "annot", "comment", "trail", "zonechild", "dupkey", "cind", "filterkeys", "hoist", "c3"}
 
 KeysFor(i) == IF i = 1 THEN {"A"} ELSE IF "dupkey" \in Feat THEN {"A", "B"} ELSE {"B"}
 FilterKeys == {"STATUS", "TESTS"}
@@ -93,7 +93,7 @@ SingleLine(v, alt) == Len(Spell(v)[alt]) = 1
 AssignItems(d, n, budget) ==
   {Item(d, "assign", key, v, None, None, None, tr, sp) :
      key \in KeysFor(n) \cup (IF "filterkeys" \in Feat /\ n = 1 THEN FilterKeys ELSE {}), v \in PoolFor(n),
-     tr \in (IF "trail" \in Feat THEN {None, "c1"} ELSE {None}),
+     tr \in (IF "trail" \in Feat THEN {None, "c1"} \cup (IF "c3" \in Feat THEN {"c3"} ELSE {}) ELSE {None}),
      sp \in UNION {SpChoices(NSpell(w), budget, TRUE, 0, FALSE) : w \in PoolFor(n)}}
 AssignOK(it) == /\ it.sp.alt <= NSpell(it.v)
                 /\ (it.trail # None => SingleLine(it.v, it.sp.alt))
@@ -123,7 +123,7 @@ SectionItems(d, budget) ==
 CommentItems(d, budget) ==
   IF "comment" \in Feat
   THEN {Item(d, "comment", c, None, None, None, None, None, sp) :
-          c \in {"c1", "c2"}, sp \in {s \in SpChoices(1, budget, FALSE, 1, "cind" \in Feat) : s.trsp = 0}}
+          c \in {"c1", "c2"} \cup (IF "c3" \in Feat THEN {"c3"} ELSE {}), sp \in {s \in SpChoices(1, budget, FALSE, 1, "cind" \in Feat) : s.trsp = 0}}
        \cup (IF "hoist" \in Feat /\ d = 0 /\ doc.body = <<>> /\ ~doc.g.envOmit /\ budget >= 1      \* written above the envelope line
              THEN {Item(0, "comment", "c1", None, None, None, None, None, [DefSp EXCEPT !.cind = 2])} ELSE {})
   ELSE {}
